@@ -920,4 +920,31 @@ else:
     if N:
         extra_strata(1 if N <= 1000 else 3)
 
+# ---- normalising keeps each element's own DIRECTION whatever its length: very short and very long elements
+# (a tolerance on the norm instead of "exactly zero" would turn short non-zero vectors into zero vectors)
+if ONLY is None:
+    for cls_name, cls in (("Vector3d", Vector3d), ("Miller", Miller), ("Quaternion", Quaternion)):
+        dim = 4 if cls is Quaternion else 3
+        for scale in (1e-9, 1e-12, 1e-30, 1e-140, 1e9, 1e140):   # squares stay inside the binary64 range
+            base = np.array([[R.gauss(0, 1) for _ in range(dim)] for _ in range(6)]).reshape(2, 3, dim)
+            base[0, 1] = 0.0                       # an exactly zero element stays zero
+            base[1, 2] = base[1, 2] * 1e6          # mixed lengths in one object
+            data = base * scale
+            st(f"unit-scale/{cls_name}")
+            rep = {"class": cls_name, "scale": scale, "data": data.reshape(-1, dim).tolist()}
+            try:
+                o = Miller(xyz=data.copy(), phase=PHASES[1]) if cls is Miller else cls(data.copy())
+                before = o.data.copy()
+                u = o.unit.data
+                nrm = np.linalg.norm(base, axis=-1, keepdims=True)
+                want_ = np.divide(base, nrm, out=np.zeros_like(base), where=nrm > 0)
+                if u.shape != data.shape or not np.allclose(u, want_, atol=1e-9):
+                    k = int(np.argmax(np.abs(u - want_).max(axis=-1).reshape(-1))) if u.shape == data.shape else -1
+                    fail(f"{cls_name}.unit:short-or-long-element", f"unit of an element of length ~{scale:g} is not the element divided by its "
+                         f"length (flat index {k})", rep)
+                if not np.array_equal(o.data, before):
+                    fail(f"{cls_name}.unit:operand-mutated", "unit changed its operand", rep)
+            except Exception as e:  # noqa
+                fail(f"{cls_name}.unit:short-or-long-element:raises", f"{type(e).__name__}: {e}", rep)
+
 emit({"cases": cases, "fails": fails, "strata": strata, "order": ORDER})
